@@ -474,6 +474,7 @@ def cpu_budget(nchars) -> float:
 # ---- stream 3: systematic recursive families at block depths 0..30, default Python recursion limit -----------
 FRAME_BASE = 10  # Python frames between the interpreter entry of the child and the first probe (fallback; measured per case: abs_base)
 BAND_LO, BAND_HI = 760, 1000
+NEAR_LO = 850  # pristine tree: every RecursionError of the grid has a model peak >= 890 frames (sync) / 1077 (async)
 
 
 def family(kind, d, variants):
@@ -595,6 +596,9 @@ class FamilyStream(Stream):
             return m
         from ..core import jdump
 
+        if not hasattr(self, "_model"):
+            self._model = {}
+        self._model[jdump(case)] = m
         obs = self._obs.get(jdump(case), {})
         # absolute depth of the model's deepest probe: the child's own frames above the first probe are measured (abs_base),
         # + 1 for the frame of the probe's depth walk
@@ -612,6 +616,43 @@ class FamilyStream(Stream):
     def compare_view(self, case, obs):
         return {"out": obs["out"], "n": obs["n"]}
 
+    def model_for(self, case):
+        """The Lean model's run of this family (no Python stack): from this run's correspondence, else asked now."""
+        from ..core import jdump
+
+        if not hasattr(self, "_model"):
+            self._model = {}
+        key = jdump(case)
+        if key not in self._model:
+            if case["kind"] == "render-fanout2" and case["mode"] != "strict" and case["limit"] > 12:
+                return None
+            from ..lean import Driver
+
+            if not hasattr(self, "_drv"):
+                self._drv = Driver()
+            if not self._drv.available():
+                return None
+            m = self._drv.batch([model_line(case, False)])[0]
+            if not isinstance(m, dict) or "maxFrames" not in m:
+                return None
+            self._model[key] = m
+        return self._model[key]
+
+    def frame_verdict(self, case, obs):
+        """What the frame bound of the model (theorems frames_bounded_partial / self_render_frames) says about this
+        family: does a statement run deeper than CPython's 1000 frames before the depth limits cut the recursion off?
+        Only then is a RecursionError the *known* defect; a RecursionError where the model reaches ContextDepthError
+        well inside the stack is a different violation and gets a different signature."""
+        m = self.model_for(case)
+        if m is None:
+            return "model-unavailable"
+        peak = m["maxFrames"] + (obs.get("abs_base") or FRAME_BASE) + 1
+        if peak > R_LIMIT:
+            return "frame-bound-exceeds-1000"
+        if peak >= NEAR_LO:
+            return "frame-bound-within-150-of-1000"  # parser / expression frames the model does not count tip it over
+        return f"model-says-{m['out']}-below-{NEAR_LO}-frames"
+
     def oracle(self, case, obs):
         if not hasattr(self, "memo"):
             self.memo = RunMemo()
@@ -620,7 +661,7 @@ class FamilyStream(Stream):
         if o in ("timeout", "crash"):
             return (f"family|{o}|{kind}|{case['mode']}", f"the render did not finish: {o}")
         if o == "RecursionError":
-            return (f"family|RecursionError|{MECH[kind]}", f"recursive {kind} at block depth {case['d']} exhausted the Python stack instead of ContextDepthError/TemplateInheritanceError")
+            return (f"family|{kind}|RecursionError|{self.frame_verdict(case, obs)}", f"recursive {kind} at block depth {case['d']} exhausted the Python stack instead of ContextDepthError/TemplateInheritanceError")
         if o == "ok":
             if case["mode"] == "strict":
                 return (f"family|not-cut|{kind}", "an unconditionally recursive family rendered without an error in STRICT mode")
@@ -783,7 +824,9 @@ RULE = (
     "extends+block with include/render, block+include) x call-site block depth 0..30 x wrapper kinds x STRICT/LAX x sync/async, "
     "default limits and default Python recursion limit, plus the fan-out-2 family; oracle: ContextDepthError / "
     "TemplateInheritanceError (LAX: ok), never RecursionError / timeout / other; model: same outcome, or RecursionError when a "
-    "probe would run deeper than 1000 frames. stream sources (oracle only): 10^4 repetitions of 35 delimiter / tag fragments, 16 "
+    "probe would run deeper than 1000 frames. A RecursionError is signed family|<kind>|RecursionError|<what the model's frame bound "
+    "says>: frame-bound-exceeds-1000, frame-bound-within-150-of-1000, or model-says-<outcome>-below-850-frames; only the first two "
+    "(per family) are listed known findings. stream sources (oracle only): 10^4 repetitions of 35 delimiter / tag fragments, 16 "
     "nested-expression and nested-block shapes up to 10^4, generated programs damaged by gen.templates.malform; oracle: no "
     "timeout, no RecursionError, CPU <= 0.5 s + 20 us/char. Non-trivial: depth - an error of the property or >= 2 copies or >= 4 "
     "pushes; parse - >= 4 tokens and an error, an IllegalNode or >= 2 blocks; families - all; sources - >= 1000 characters or an error."
